@@ -19,6 +19,8 @@ vars == <<l, verdicts>>
 \* failure classes of one case
 Fails(c) ==
   IF c.err # "" THEN {[c |-> "error", at |-> <<>>]}
+  \* a package / import guard of the change does not hold for this file: no effect at all (C10)
+  ELSE IF c.guard = "fail" THEN (IF c.in = c.out /\ c.changed = "0" THEN {} ELSE {[c |-> "collateral", at |-> <<>>]})
   ELSE Judge(c.pat, c.plus, c.in, c.out, "Node", <<>>)
 
 \* Known findings (see known_findings.jsonl): a failing record is reported
@@ -38,7 +40,7 @@ KnownKey(c, f) ==
   ELSE ""
 
 \* drift: the real output equals the I-layer prediction (modulo parentheses)
-IEq(c) == c.err # "" \/ Strip(IRewrite(c.pat, c.plus, c.in, "Node")) = Strip(c.out)
+IEq(c) == c.err # "" \/ c.guard = "fail" \/ Strip(IRewrite(c.pat, c.plus, c.in, "Node")) = Strip(c.out)
 
 Verdict(c) ==
   LET fs == Fails(c)
@@ -46,7 +48,7 @@ Verdict(c) ==
       ok |-> IF fs = {} THEN "1" ELSE "0",
       fails |-> SetToSeq({[c |-> f.c, at |-> f.at, known |-> KnownKey(c, f)] : f \in fs}),
       ieq |-> IF IEq(c) THEN "1" ELSE "0",
-      sites |-> IF c.err # "" THEN 0 ELSE CountSites(c.pat, c.plus, c.in, "Node"),
+      sites |-> IF c.err # "" \/ c.guard = "fail" THEN 0 ELSE CountSites(c.pat, c.plus, c.in, "Node"),
       err |-> c.err]
 
 Init == l = 1 /\ verdicts = <<>>
